@@ -427,8 +427,11 @@ def draw_step(draw, s, avoid):
                  '%s = np.sqrt(%s[:])' % (new, a)]
         if not s['on_disk']:
             forms += ['%s = %s * 2' % (new, a), '%s = %s - %s' % (new, a, b)]
+        copyall = draw(st.booleans())
+        if avoid and s['extra']:
+            copyall = False     # eval(copyall=True) copies (known, above)
         return ['eval', {'expr': draw(st.sampled_from(forms)),
-                         'copyall': draw(st.booleans())}]
+                         'copyall': copyall}]
     if op == 'mask':
         return ['mask', {'kind': draw(st.sampled_from(MASKS)),
                          'value': draw(st.integers(0, 96))}]
@@ -529,9 +532,15 @@ known.register('C10-rename-varlist', lambda j, f: (
 # variables of griddesc(withcf=True)): copyVariable lists every variable
 # and nothing prunes the list afterwards
 known.register('C10-copy-stack-extra-vars', lambda j, f: (
-    f.klass in ('copy', 'stack', 'rename') and
-    j['file']['route'] == 'griddesc_cf' and
-    f.clause in COUNT_CLAUSES + ('varlist-width', 'listed-dims')))
+    j['file']['route'] == 'griddesc_cf' and (
+        (f.klass in ('copy', 'stack', 'rename') and
+         f.clause in COUNT_CLAUSES + ('varlist-width', 'listed-dims')) or
+        # same root cause one step later: eval(copyall=True) copies, the
+        # polluted, misaligned VAR-LIST swallows the new name, and
+        # subsetVariables([new name]) then returns a file without variables
+        (f.klass == 'subset' and
+         f.clause in ('nvars-vardim', 'nvars-tflag') and
+         any(op == 'eval' and a['copyall'] for op, a in j['steps'][:-1])))))
 # a reduction over TSTEP reduces the TFLAG integers themselves and leaves
 # SDATE/STIME at the source's start
 known.register('C10-tstep-reduce-tflag', lambda j, f: (
